@@ -380,3 +380,6 @@ print(bad)
 if bad: reproduced(str(bad))
 not_reproduced()
 """
+
+# level text addendum (cases added after the seeded-change rounds)
+LEVEL_TEXT = LEVEL_TEXT + ' Also: integer waveforms, the ranking step alone under a single-precision rounding model, every call repeated on the same array.'
